@@ -369,6 +369,8 @@ def run(ctx):
                     if on & ts_bbs:
                         n_p += 1
                         if not (on & ac_bbs):
+                            if _stores_same_value(ub, path, on & ts_bbs, ts):
+                                continue        # `if self.state.replace(new) != Some(new)` on its equal side: what was stored is what was there
                             bad = path
                             break
                 if bad is not None:
@@ -561,3 +563,42 @@ def run(ctx):
 def _two_variant_enum(prog, ty):
     a = prog.adts.get(ty or "")
     return bool(a) and a.get("kind") == "enum" and len(a["variants"]) == 2 and not any(v["fields"] for v in a["variants"])
+
+
+def _stores_same_value(ub, path, store_bbs, ts):
+    """Every store of the remembered state on this path is an `Option::replace(&mut self.<ts>, x)` whose returned old value the path then found
+    equal to `Some(x)` — the stored value is the value that was there, so nothing was advanced."""
+    from engine.analyses import bool_switch_polarity
+    for sb in store_bbs:
+        t = ub.blocks[sb]["term"]
+        if t["k"] != "call" or not callee_name(t).endswith("Option::<T>::replace") or self_path(ub.expr_operand(t["args"][0])) != (ts,):
+            return False
+        new_v = strip_refs(peel_conv(ub.expr_operand(t["args"][1])))
+        ok = False
+        for (bb, vals) in path:
+            tt = ub.blocks[bb]["term"]
+            if tt["k"] != "switch" or tt["discr_ty"] != "bool" or vals is None:
+                continue
+            d = strip_refs(ub.expr_operand(tt["discr"]))
+            neg = False
+            while d.k == "un" and d.a[0] == "Not":
+                d = strip_refs(d.a[1])
+                neg = not neg
+            if not (d.k == "call" and d.a[0].endswith(("::ne", "::eq")) and len(d.a[1]) == 2):
+                continue
+            sides = [strip_refs(peel_conv(x)) for x in d.a[1]]
+            old_side = [x for x in sides if x.k == "call" and x.a[0].endswith("Option::<T>::replace") and x.a[2] == sb] if all(len(x.a) > 2 for x in sides if x.k == "call") else []
+            if not old_side:
+                old_side = [x for x in sides if x.k == "call" and x.a[0].endswith("Option::<T>::replace")]
+            some_side = [x for x in sides if x.k == "agg" and str(x.a[0]).endswith("Option::Some") and len(x.a[1]) == 1 and strip_refs(peel_conv(x.a[1][0])) == new_v]
+            if len(old_side) != 1 or len(some_side) != 1:
+                continue
+            truth = (vals != (0,)) if vals != "otherwise" else (0 in tuple(v for v, _ in tt["targets"]))
+            if neg:
+                truth = not truth
+            equal = truth if d.a[0].endswith("::eq") else (not truth)
+            if equal:
+                ok = True
+        if not ok:
+            return False
+    return True
